@@ -96,7 +96,7 @@ def _run_own(chk, S: Session):
             if average:
                 lhs = nf.norm(new[1])
                 rhs = nf.norm(T.mk("div", (T.mk("add", (T.mk("mul", (lp, n)), lpn)), T.mk("add", (n, 1))))) if lpn is not None else None
-                r2.require(rhs is not None and lhs == rhs, "MarkovSequence.evaluate_lml running mean", "new*(n+1) == old*n + logpdf_k  (so the carried value is the mean of the first n terms)",
+                r2.require(rhs is not None and nf.rat_equal(lhs, rhs), "MarkovSequence.evaluate_lml running mean", "new*(n+1) == old*n + logpdf_k  (so the carried value is the mean of the first n terms)",
                            f"new = {nf.show(nf.norm(new[1]))}", where, cfg)
             else:
                 r2.require(lpn is not None and nf.norm(new[1]) == nf.add(nf.norm(lp), nf.norm(lpn)), "MarkovSequence.evaluate_lml running sum", "new == old + logpdf_k", f"new = {nf.show(nf.norm(new[1]))}", where, cfg)
